@@ -118,7 +118,7 @@ class Prop:
                 yield dict(kind="alts", univ=g["univ"], setup=g["setup"], alts=g["alts"][i:i + 64], label=g["label"])
         groups = groups + hist_groups
         # histories on small sources: every k-th copy alternative followed by a mutation tail
-        stride = 61 if quick else 26
+        stride = 71 if quick else 26
         j = 0
         for g in groups:
             if g["n"] < 2:
@@ -130,7 +130,7 @@ class Prop:
                 h, _ = M.gen_history(rng, g["setup"], a, rng.randint(4, 10), univ=g["univ"])
                 yield dict(kind="hist", univ=h["univ"], ops=h["ops"], check_from=len(g["setup"]))
         # larger random sources
-        for i in range(25 if quick else 300):
+        for i in range(22 if quick else 300):
             setup, n, typed = M.random_source(rng, 4, 8 if quick else 12)
             h, _ = M.gen_history(rng, setup, M.random_copy_op(rng, n, typed), rng.randint(6, 14 if quick else 25),
                                  reorder=rng.randint(0, 4))
